@@ -20,6 +20,14 @@ CHECKS = {
         'note': 'Assumed: asynchronous-codec FramedRead appends reads to one buffer and calls decode repeatedly without dropping bytes; the hand-over of the framed reader is a move (Rust ownership).',
         'technique': 'Verus: resumability contract on decode (loop invariant against a recursive spec function) + inductive lemmas',
     },
+    'C04': {
+        'text': 'Verus proves, on the real text: compatible() equals the RFC socket-compatibility relation for every pair with no precondition (total, symmetric by lemma); the identity rule (empty -> generated, >255 -> error, else verbatim); '
+                'negotiate_version accepts exactly versions >= 3.0; ready_exchange returns Ok exactly when the single item read is a READY whose Socket-Type names a compatible type and whose Identity is <= 255 octets, and yields the announced identity; '
+                'util::peer_connected calls the backend only under the precondition that both exchanges succeeded on that very connection. Name parsers (byte-string patterns) are discharged by Kani.',
+        'design_ref': 'DESIGN.md 4 (C04)',
+        'note': 'Assumed: framed read/write stand-ins with ghost logs; String hash-key axioms; generated identities are one abstract value (uniqueness not claimed). Not covered: that registration happens on the Ok path (effect behind Arc<dyn>), connection closing, monitor reporting. socktype_parse is bounded (length <= 8).',
+        'technique': 'Verus contracts on extracted handshake functions (async skeletons) + Kani for name parsers and the 12x12 table',
+    },
     'C03': {
         'text': 'Every index, slice, get_u8/u32/u64, split_to, advance, expect, arithmetic operation and recursion/loop measure in the byte-reachable synchronous code is a Verus obligation under no precondition but the representation invariant; '
                 'allocation is bounded through a ghost counter on BytesMut::reserve; parsers Verus cannot read are covered by Kani (complete or bounded as labelled).',
@@ -30,7 +38,6 @@ CHECKS = {
 }
 
 NOT_APPLICABLE = {
-    'C04': 'not yet built in this session (planned: handshake unit)',
     'C05': 'quantifies over arrival schedules and concurrent connect/disconnect; the mechanism (FairQueue::poll_next releasing a parking_lot lock around a checked-out stream, wakers firing on other threads) is outside what Verus (no Pin/Context/Waker/lock-guard specs, &mut model assumes no interference) or Kani (no threads, crashes on parking_lot, HashMap intractable) can express; the per-connection part is discharged under C02',
     'C06': 'liveness / fairness over adversarial schedules; wake-ups go through &Waker (no state a per-call contract can see)',
     'C07': 'not yet built in this session (planned: reqrep unit)',
